@@ -24,6 +24,28 @@ small matrix and the SPEC value through powers of the big one.  For non-polynomi
 small matrix are not in ℚ[i]: there the Krylov value is not computed exactly (`exact = false`) and the harness compares
 by tolerance only.
 Run with `lake env lean --run DriverC09.lean < cases.jsonl`.
+
+**Gaps between this driver and the theorems (nothing below is proved).**
+* The Krylov MODEL the driver executes (`krylovEntry` → `KrylovExact.applyPoly`, `krylovChecks`, `krylovGrades`: an
+  UN-normalised Arnoldi recurrence over ℚ[i], used for BOTH the Lanczos and the Arnoldi base nodes, polynomial functions
+  only) is NOT the definition the theorems are about.  The theorems (`C09_krylov_ok_of_lanczos`, `C09_lanczos_path_closed`,
+  `KrylovCompose.lanczosUnaryVec` / `lanczosUnaryMat`) speak of C14's normalised loop model `Lanczos.lanczosExact` over ℂ
+  followed by an `eigh` of the tridiagonal matrix; that definition is noncomputable (square roots, eigenvalues outside
+  ℚ[i]) and the driver cannot call it.  No Lean theorem relates `KrylovExact.applyPoly` to `lanczosUnaryVec`.  What ties
+  them is only: (a) mathematically both equal `p(A) e_i` when the invariance re-check `A Q = Q H` passes (the driver
+  re-checks it on every run, `krylovChecks`; `C09_krylov_poly` is the statement for an abstract factorisation), and
+  (b) the differential run against the real `LanczosUnary` / `ArnoldiUnary` (tolerance 1e-5).  So the `krylov-exact` stream
+  checks the real code against `p(A)` through an independent exact Krylov computation; it does not execute the model of
+  the Lanczos theorems.
+* The two run-level clauses are decided for ROOT nodes only: `krylov-zero-column` when the plan's root is a Kronecker
+  product whose members are matched with the members of the operator's core (a Krylov member nested deeper — inside a
+  BlockDiag member of the Kronecker product, under a Transpose — is walked by `UnOp.zeroFibreClause` only as far as that
+  function recurses; a Kronecker product that is itself a member of another node is not examined);
+  `krylov-batch-unequal-exhaustion` only when the whole plan is ONE Krylov base node.  The harness generates the two
+  labelled streams only in these root shapes, so a nested occurrence would not be excused (it would be reported as a
+  VIOLATION, never silently accepted).
+* `UnOp.zeroFibreClause` and `KrylovExact.unequalExhaustion` are executable predicates used to ATTRIBUTE recorded clauses;
+  no theorem mentions them.
 -/
 
 open Lean (Json)
